@@ -104,7 +104,9 @@ def main(argv=None):
     ap.add_argument("prop")
     ap.add_argument("--tier", default=os.environ.get("VERIF_TIER", "quick"))
     ap.add_argument("--replay", default=None)
-    ap.add_argument("--jobs", type=int, default=int(os.environ.get("TXVC_JOBS", "16")))
+    # measured in this sandbox: z3-heavy workers stop scaling beyond ~8 processes
+    # (page-fault / allocator contention), more only adds system time
+    ap.add_argument("--jobs", type=int, default=int(os.environ.get("TXVC_JOBS", "8")))
     ap.add_argument("-v", action="store_true")
     a = ap.parse_args(argv)
     pid = a.prop
@@ -118,7 +120,9 @@ def main(argv=None):
         return propmod.run_replay(pid, a.replay)
 
     units = [u for u in reg.values() if pid in u.props and not u.trusted]
-    opts = {"timeout_ms": 10000 if tier == "quick" else 60000, "tier": tier, "seed": seed, "prop": pid}
+    opts = {"timeout_ms": 10000 if tier == "quick" else 60000, "tier": tier, "seed": seed, "prop": pid,
+            # feasibility pruning is an optimisation: a slow query is answered "feasible"
+            "feas_timeout": 600 if tier == "quick" else 3000}
     results = []
     if units:
         jobs = max(1, min(a.jobs, len(units)))
@@ -134,24 +138,36 @@ def main(argv=None):
         else:
             # phase 1: explore each unit until 16 prefixes are pending; phase 2:
             # the pending subtrees of all units share the worker pool
-            with mp.get_context("fork").Pool(jobs) as pool:
-                results = pool.map(_run_unit, work, chunksize=1)
-                byname = {r["unit"]: r for r in results}
+            # dynamic scheduling: a task explores a subtree of one unit until a few
+            # prefixes are pending, returns them, and they are queued at once
+            with mp.get_context("fork").Pool(jobs, maxtasksperchild=6) as pool:
+                byname = {}
                 optsof = {w[0]: w[1] for w in work}
-                tasks = []
-                for r in results:
-                    for script in r.pop("remaining", []) or []:
-                        tasks.append((r["unit"], optsof[r["unit"]], [script], 6))
-                rounds = 0
-                while tasks:
-                    rounds += 1
-                    nxt = []
-                    for sub in pool.imap_unordered(_run_unit, tasks, chunksize=1):
-                        _merge(byname[sub["unit"]], sub)
-                        for script in sub.get("remaining", []) or []:
-                            nxt.append((sub["unit"], optsof[sub["unit"]], [script],
-                                        6 if rounds < 6 else None))
-                    tasks = nxt
+                inflight = [pool.apply_async(_run_unit, (w,)) for w in work]
+                submitted = len(inflight)
+                while inflight:
+                    still = []
+                    progressed = False
+                    for ar in inflight:
+                        if not ar.ready():
+                            still.append(ar)
+                            continue
+                        progressed = True
+                        sub = ar.get()
+                        rem = sub.pop("remaining", []) or []
+                        if sub["unit"] in byname:
+                            _merge(byname[sub["unit"]], sub)
+                        else:
+                            byname[sub["unit"]] = sub
+                        for script in rem:
+                            submitted += 1
+                            split = 4 if submitted < 400 else None
+                            still.append(pool.apply_async(
+                                _run_unit, ((sub["unit"], optsof[sub["unit"]], [script], split),)))
+                    inflight = still
+                    if not progressed:
+                        time.sleep(0.05)
+                results = [byname[w[0]] for w in work]
     # A unit whose code no longer fits the shape its contract was written for (a
     # new loop without an invariant) is NOT a violation: degrade that unit to the
     # bounded stand-in (loops unrolled, everything else symbolic).  Only a
